@@ -751,6 +751,13 @@ func (st *srvState) oracleTable(snap []dht.VerifNode, nn, good, exported int, ct
 		if n.Id == [20]byte{} {
 			oracle("C05", "zero-id-in-table", "%s", ctxs)
 		}
+		// C06: with the security extension in force every entry's id is BEP 42-secure for its address (or the address is
+		// exempt), by the independent rule of the security engine
+		if !c.cfg.nosec {
+			if ok, defined := secRefSecure(n.Id, n.IP); defined && !ok {
+				oracle("C06", "insecure-id-in-table", "%s id=%x addr=%s", ctxs, n.Id, n.Addr)
+			}
+		}
 		idx, p := dht.VerifBucketIndex(c.cfg.root, n.Id)
 		if p || idx != n.Bucket || idx != sharedPrefix(c.cfg.root, n.Id) {
 			oracle("C05", "entry-in-wrong-bucket", "%s id=%x bucket=%d expected=%d", ctxs, n.Id, n.Bucket, sharedPrefix(c.cfg.root, n.Id))
